@@ -375,8 +375,13 @@ Definition run_app (kw : kwargs) (r : req) (a : app) : req :=
   end.
 Definition run_apps (l : list app) (kw : kwargs) (r : req) : req := fold_left (run_app kw) l r.
 
-(* bool(request): a protobuf message is always true; a proto-plus message is true when some field holds a true value *)
-Definition msg_falsy (proto_plus : bool) (m : req) : bool := proto_plus && is_nil (entries m).
+(* bool(request): a protobuf message is always true; a proto-plus message is true when some field holds a true value
+   (a set field with a default value, an empty sub-message or one whose own fields are all false do not count;
+   an opaque sub-message value stands for a true one unless it is the empty serialisation) *)
+Definition leaf_falsy (v : leaf) : bool :=
+  match v with LS s => is_empty s | LM s => is_empty s | LL l => is_nil l | LD d => is_nil d end.
+Definition msg_falsy (proto_plus : bool) (m : req) : bool :=
+  proto_plus && forallb (fun kv => leaf_falsy (snd kv)) (entries m).
 
 (* T(k1=p1, ...): every keyword must name a field of T, whatever its value; None values are skipped;
    the others are stored (scalar assignment, list extension on the new message) *)
